@@ -172,7 +172,7 @@ func genC01(g *Gen) {
 	n := g.scale(6000, 300000)
 	for i := 0; i < n; i++ {
 		f := g.genAnyFrame(reg, i%5 != 0)
-		g.add("phyenc " + f)
+		g.add("phyrt " + f)
 		if b := encodeFrameTok(f); b != nil {
 			g.add("phydec " + hx(b))
 			if i%10 == 0 {
@@ -206,12 +206,7 @@ func genC01(g *Gen) {
 func genC08(g *Gen) {
 	reg := builtinRegistry()
 	dec := func(b []byte) {
-		op := "phydec " + hx(b)
-		g.add(op)
-		res := execOp(op)
-		if strings.HasPrefix(res, "ok ") {
-			g.add("phyenc " + res[3:])
-		}
+		g.add("phycanon " + hx(b))
 	}
 	// all lengths 0..256 of uniform bytes for every MType
 	for l := 0; l <= 256; l++ {
